@@ -11,6 +11,7 @@
 -/
 import Nervus.Proofs.HnswHistory
 import Nervus.Proofs.HnswStore
+import Nervus.Proofs.HnswBlob
 import Nervus.Model.BTreeReal
 namespace Nervus.Props.C31
 open Nervus Nervus.Hnsw
@@ -202,5 +203,50 @@ theorem counterexample_root_split_reopen :
   decide +kernel
 
 end durability
+
+/-! ### the blob layer under the stores: what is stored is what is read back (cold cache) -/
+
+section blob
+open Nervus.HnswBlob
+
+/-- `get_vector` / `get_neighbors` decode the concatenated blob, not page by page (regenerated from
+    index/hnsw/storage.rs; the recogniser fails on shapes it does not know) -/
+theorem decoders_use_concat : decodesPerPage = false := by decide
+
+/-- the blob page payload (regenerated from blob_store.rs) is positive — and NOT a multiple of the
+    word size, which is why a per-page decoder is wrong for values longer than one page -/
+theorem page_payload_facts : 1 ≤ pagePayload ∧ pagePayload % 4 ≠ 0 := by decide
+
+/-- **stored = read back**: a vector or neighbour list of ANY length written through
+    `BlobStore::write_direct` and read with a cold cache through `read_direct` + word decoding comes
+    back unchanged — for the engine's page payload … -/
+theorem stored_is_read_back (ws : List Nat) (hw : ∀ w, w ∈ ws → w < 2 ^ 32) :
+    roundTrip decodesPerPage pagePayload ws = .ok ws := by
+  rw [decoders_use_concat]; exact roundTrip_concat pagePayload page_payload_facts.1 ws hw
+
+/-- … and for every page payload `P ≥ 1` whatsoever -/
+theorem stored_is_read_back_any_page (P : Nat) (hP : 1 ≤ P) (ws : List Nat) (hw : ∀ w, w ∈ ws → w < 2 ^ 32) :
+    roundTrip false P ws = .ok ws := roundTrip_concat P hP ws hw
+
+/-- **the per-page decoder is wrong** whenever the payload is not a multiple of 4 and the value
+    crosses a page: the result is strictly shorter than what was stored (C31-seed1's refactoring) -/
+theorem counterexample_per_page_decoding (P : Nat) (hP4 : P % 4 ≠ 0) (ws : List Nat)
+    (hcross : P < 4 * ws.length) (r : List Nat) (h : roundTrip true P ws = .ok r) : r ≠ ws := by
+  intro e
+  have := perPage_loses_words P hP4 ws hcross r h
+  rw [e] at this; exact Nat.lt_irrefl _ this
+
+/-- concretely, on a 6-byte page: the word straddling the boundary is dropped and the next one is
+    decoded two bytes out of phase (3 becomes 3·2^16); the concatenating decoder is right -/
+example : roundTrip true 6 [1, 2, 3] = .ok [1, 196608] ∧ roundTrip false 6 [1, 2, 3] = .ok [1, 2, 3] := by
+  decide +kernel
+/-- the engine's payload: 2046 words are one more than fit a page (instance of the theorems above) -/
+example : pagePayload < 4 * 2046 ∧ 4 * 2045 ≤ pagePayload := by decide
+/-- non-vacuity of `stored_is_read_back_any_page`: values of 0‥9 words over pages of 1‥9 bytes -/
+example : (List.range 10).all (fun n => (List.range 9).all (fun p =>
+    roundTrip false (p + 1) ((List.range n).map (· * 16843009 % 4294967296)) ==
+      .ok ((List.range n).map (· * 16843009 % 4294967296)))) = true := by decide +kernel
+
+end blob
 
 end Nervus.Props.C31
